@@ -861,8 +861,15 @@ def remap_by_types(
 
         def visit_UnaryOp(self, node: ast.UnaryOp) -> Any:
             t_node = self.generic_visit(node)
-            self._found_types[node] = self.lookup_type(node.operand)
-            self._found_types[t_node] = self.lookup_type(node.operand)
+            t_operand = self.lookup_type(node.operand)
+            if isinstance(node.op, ast.Not):
+                # `not x` is a truth value, whatever `x` is.
+                t_operand = bool
+            elif t_operand == bool:
+                # `-True`, `+True` and `~True` are integers.
+                t_operand = int
+            self._found_types[node] = t_operand
+            self._found_types[t_node] = t_operand
             return t_node
 
         def visit_BinOp(self, node: ast.BinOp) -> Any:
